@@ -896,6 +896,10 @@ func filterRemovetags(in *Value, param *Value) (*Value, *Error) {
 
 func filterRjust(in *Value, param *Value) (*Value, *Error) {
 	padding := param.Integer()
+	if padding < 0 {
+		// a negative width must not turn into the left-justify flag of %-Ns
+		padding = 0
+	}
 	if padding > maxCharPadding {
 		return nil, &Error{
 			Sender:    "filter:rjust",
